@@ -35,4 +35,5 @@ def relevant(b):
 
 def run(rep, tier, seed, replay):
     _repl.run(rep, tier, seed, replay, 'C04', NAMES, relevant,
-              'non-trivial = publishes with at least two different ack policies, or an ALL publish together with an ISR change or election')
+              'non-trivial = publishes with at least two different ack policies, or an ALL publish together with an ISR change or election',
+              rf1=True, mc_quick='MC_Replication_acks.cfg')
